@@ -382,7 +382,7 @@ class Observable(
         if isinstance(key, slice):
             start, stop, step = key.start, key.stop, key.step
         else:
-            start, stop, step = key, key + 1, 1
+            start, stop, step = key, key + 1 or None, 1
 
         from ..operators._slice import slice_
 
